@@ -472,6 +472,15 @@ def same_shape_other_bitmap_cases():
     for k, bits in enumerate(([0, 1], [1, 0], [0, 1])):
         rows.append([30 + k, 300 + k] + bits + [4, 1, 40 + k, 1, 90 + k])
     out.append(('markers_one_zero_bit_moving', case_from_raws(meta(3), ids, subsets=rows)))
+    # the same without any delayed replication (a template whose layout is fixed): one zero bit, one marker value; the
+    # marker takes the label of the element its subset's bitmap selects
+    ids = [1001, 1002, 12101, 224000, 236000, 101003, 31031, 8023, 224255, 223000, 237000, 223255]
+    rows = []
+    for k, bits in enumerate(([0, 1, 1], [1, 0, 1], [1, 1, 0], [1, 0, 1])):
+        sel = bits.index(0)
+        val = [40 + k, 400 + k, 27000 + k][sel]
+        rows.append([30 + k, 300 + k, 27300 + k] + bits + [4, val, val])
+    out.append(('markers_static_layout_zero_bit_moving', case_from_raws(meta(4), ids, subsets=rows)))
     for name, c in out:
         c.features.add('same_descriptors_other_bitmap')
     return out
